@@ -86,9 +86,10 @@ def classify (f : Flag) (s : Bytes) : Inferred :=
     let neg := (splitSign s).1
     let body := (splitSign s).2
     let asInt (v : Int) : Inferred := if f == .intAsFloat then .float (F64.ofInt v) else .int v
-    /- an integer numeral of magnitude `n`: the int64 if it fits, else the nearest double -/
+    /- an integer numeral of magnitude `n`: the int64 if it fits, else the nearest double
+       (`roundDecimal neg n 0` = correctly rounded value of ±n·10^0, ±Inf beyond the range) -/
     let intOrFloat (n : Nat) : Inferred :=
-      if fitsI64 (signed neg n) then asInt (signed neg n) else .float (F64.ofInt (signed neg n))
+      if fitsI64 (signed neg n) then asInt (signed neg n) else .float (ParseFloat.roundDecimal neg n 0)
     match scanClass s with
     | .string => strOrVoid s
     | .decimalInt => intOrFloat (value 10 body)
@@ -112,14 +113,12 @@ def classify (f : Flag) (s : Bytes) : Inferred :=
 (the exclusion predicate of `infer_eq_classify_partial`; each class has a counterexample theorem
 and an entry in known_findings.json or a `fix:` commit). -/
 inductive Finding where
-  | decimalIntOverflow     -- decimal integer numeral outside int64
   | lzIntOverflow          -- (-O) leading-zero numeral outside int64
   | prefixedIntOverflow    -- 0x/0o/0b numeral of magnitude ≥ 2^63 (other than 16-digit two's-complement hex)
-  | floatOverflow          -- float syntax whose value overflows a double
+  | floatOverflow          -- float syntax (or a decimal integer numeral) whose value overflows a double
   deriving DecidableEq, Repr
 
 def Finding.name : Finding → String
-  | .decimalIntOverflow => "decimal-int-overflow"
   | .lzIntOverflow => "lz-int-overflow"
   | .prefixedIntOverflow => "prefixed-int-overflow"
   | .floatOverflow => "float-overflow"
@@ -130,7 +129,8 @@ def findingClass (f : Flag) (s : Bytes) : Option Finding :=
   let big (n : Nat) : Bool := !fitsI64 (signed neg n)
   if f == .stringOnly then none else
   match scanClass s with
-  | .decimalInt => if big (value 10 body) then some .decimalIntOverflow else none
+  | .decimalInt =>
+    if big (value 10 body) && F64.isInf (ParseFloat.roundDecimal neg (value 10 body) 0) then some .floatOverflow else none
   | .lzDecimalInt => if f == .octal && big (value 10 body) then some .lzIntOverflow else none
   | .lzOctalInt => if f == .octal && big (value 8 body) then some .lzIntOverflow else none
   | .hexInt =>
